@@ -10,16 +10,16 @@ def R(build, shards=1, **kw):
 PLAN = {
     "C01": {
         "quick": [R("v0", 4), R("v1", 2), R("miri", 2, tree_borrows_odd=True, timeout=1500)],
-        "thorough": [R("v0", 16), R("v1", 8), R("v2", 8), R("asan", 8), R("tsan", 8, scale=0.25),
-                     R("miri", 16, tree_borrows_odd=True, timeout=7200)],
+        "thorough": [R("v0", 16), R("v1", 8), R("v2", 4), R("asan", 4, scale=0.08), R("tsan", 4, scale=0.04),
+                     R("miri", 12, tree_borrows_odd=True, timeout=7200)],
     },
     "C07": {
         "quick": [R("v0", 3), R("v1", 3), R("miri", 1, timeout=1500)],
-        "thorough": [R("v0", 8), R("v1", 8), R("tsan", 4, scale=0.2), R("asan", 2, scale=0.3), R("miri", 6, timeout=7200)],
+        "thorough": [R("v0", 8), R("v1", 8), R("tsan", 3, scale=0.1), R("asan", 2, scale=0.2), R("miri", 6, timeout=7200)],
     },
     "C02": {
         "quick": [R("v0", 4), R("miri", 2, timeout=1500)],
-        "thorough": [R("v0", 16), R("v2", 4), R("asan", 4), R("miri", 8, timeout=7200)],
+        "thorough": [R("v0", 16), R("v2", 4), R("asan", 4, scale=0.3), R("miri", 8, timeout=7200)],
     },
     "C03": {
         "quick": [R("v0", 2), R("miri", 2, timeout=1500)],
@@ -35,15 +35,15 @@ PLAN = {
     },
     "C05": {
         "quick": [R("v0", 4), R("v1", 2), R("miri", 2, timeout=1500)],
-        "thorough": [R("v0", 16), R("v1", 8), R("v2", 4), R("asan", 4), R("tsan", 4), R("miri", 8, timeout=7200)],
+        "thorough": [R("v0", 16), R("v1", 8), R("v2", 4), R("asan", 4, scale=0.2), R("tsan", 4, scale=0.1), R("miri", 8, timeout=7200)],
     },
     "C06": {
         "quick": [R("v0", 4), R("v1", 2), R("miri", 2, timeout=1500)],
-        "thorough": [R("v0", 16), R("v1", 8), R("tsan", 4), R("miri", 8, timeout=7200)],
+        "thorough": [R("v0", 16), R("v1", 8), R("tsan", 4, scale=0.1), R("miri", 8, timeout=7200)],
     },
     "C08": {
         "quick": [R("v0", 2), R("v1", 2), R("miri", 1, timeout=1500)],
-        "thorough": [R("v0", 8), R("v1", 8), R("tsan", 2, scale=0.2), R("miri", 4, timeout=7200)],
+        "thorough": [R("v0", 8), R("v1", 8), R("tsan", 2, scale=0.1), R("miri", 4, timeout=7200)],
     },
     "C15": {
         "quick": [R("v0", 4), R("miri", 1, timeout=1500)],
@@ -51,7 +51,7 @@ PLAN = {
     },
     "C09": {
         "quick": [R("v0", 3), R("miri", 4, timeout=1500)],
-        "thorough": [R("v0", 16), R("v1", 4), R("asan", 4, scale=0.2), R("miri", 16, timeout=7200)],
+        "thorough": [R("v0", 16), R("v1", 4), R("asan", 4, scale=0.1), R("miri", 12, timeout=7200)],
     },
     "C10": {
         "quick": [R("v0", 4), R("miri", 1, timeout=1500)],
@@ -63,25 +63,26 @@ PLAN = {
     },
     "C13": {
         "quick": [R("v0", 4), R("asan", 2), R("miri", 2, tree_borrows_odd=True, timeout=1500)],
-        "thorough": [R("v0", 16), R("v1", 4), R("v2", 2), R("asan", 8), R("tsan", 4), R("miri", 12, tree_borrows_odd=True, timeout=7200)],
+        "thorough": [R("v0", 16), R("v1", 4), R("v2", 2), R("asan", 6, scale=0.15), R("tsan", 4, scale=0.08),
+                     R("miri", 10, tree_borrows_odd=True, timeout=7200)],
     },
     "C14": {
         "quick": [R("v0", 4), R("miri", 1, timeout=1500)],
-        "thorough": [R("v0", 16), R("v1", 4), R("tsan", 2), R("miri", 6, timeout=7200)],
+        "thorough": [R("v0", 16), R("v1", 4), R("tsan", 2, scale=0.2), R("miri", 6, timeout=7200)],
     },
     "C16": {
         "quick": [R("v0", 2), R("miri", 4, mode="leakcheck", tree_borrows_odd=True, timeout=1500)],
-        "thorough": [R("v0", 8), R("v2", 2), R("asan", 4), R("tsan", 4),
+        "thorough": [R("v0", 8), R("v2", 2), R("asan", 4, scale=0.2), R("tsan", 4, scale=0.1),
                      R("miri", 16, mode="leakcheck", tree_borrows_odd=True, timeout=7200)],
     },
     "C17": {
         "quick": [R("v0", 2), R("miri", 4, tree_borrows_odd=True, timeout=1500)],
-        "thorough": [R("v0", 8), R("v1", 4), R("asan", 4), R("tsan", 4),
-                     R("miri", 16, tree_borrows_odd=True, timeout=7200)],
+        "thorough": [R("v0", 8), R("v1", 4), R("asan", 4, scale=0.1), R("tsan", 4, scale=0.05),
+                     R("miri", 12, tree_borrows_odd=True, timeout=7200)],
     },
     "C18": {
         "quick": [R("v0", 2), R("miri", 4, timeout=1500)],
-        "thorough": [R("v0", 16), R("v1", 4), R("tsan", 4), R("miri", 16, timeout=7200)],
+        "thorough": [R("v0", 16), R("v1", 4), R("tsan", 4, scale=0.1), R("miri", 12, timeout=7200)],
     },
 }
 
